@@ -135,6 +135,41 @@ def pack (τ : Ty) (value : Int) : Except Err (List Nat) :=
       | some (s, sg) => structPack s sg value
       | none => .error .KeyError
 
+/-- everything `CContext.pack` accepts besides the float types: an integer `BasicType`, an `EnumType`
+    (packed as `BasicType.INT`), a `PointerType` (format key `"ptr"`) -/
+inductive PackTy
+  | basic (τ : Ty) | enum | ptr
+  deriving DecidableEq, Repr
+
+/-- `ctypes_names["ptr"]` on x86_64 -/
+def ptrFmt : String := "<Q"
+/-- `arch_info.get_size("ptr")` on x86_64 (= `sizeof` of every pointer type) -/
+def ptrSize : Nat := 8
+
+/-- `fmt = self.ctypes_names[tid]` with `tid = "ptr"` / `BasicType.INT` / `typ.type_id` -/
+def PackTy.fmt : PackTy → String
+  | .basic τ => τ.fmt | .enum => Ty.int.fmt | .ptr => ptrFmt
+
+/-- `self.sizeof(typ)`: an enum has the size of the target's `int` -/
+def PackTy.size : PackTy → Nat
+  | .basic τ => τ.size | .enum => Ty.int.size | .ptr => ptrSize
+
+/-- `tid in BasicType.SIGNED_INTEGER_TYPES` (the string `"ptr"` is not a member) -/
+def PackTy.signedTid : PackTy → Bool
+  | .basic τ => τ.isSigned | .enum => Ty.int.isSigned | .ptr => false
+
+/-- `CContext.pack(typ, value)` for every non-float type it accepts and an `int` value -/
+def packAny (t : PackTy) (value : Int) : Except Err (List Nat) :=
+  match fmtInfo t.fmt with
+  | none => .error .KeyError
+  | some (fsize, _) =>
+    if t.size ≠ fsize then .error .AssertionError
+    else
+      let value := wrapInteger value (8 * fsize) t.signedTid
+      match fmtInfo t.fmt with
+      | some (s, sg) => structPack s sg value
+      | none => .error .KeyError
+
 /-! ### trees -/
 
 /-- operator spellings that reach `on_unop/on_binop` -/
@@ -403,6 +438,19 @@ def initializer (τ : Ty) (s : Src) : Except Err (List Nat) := do
   let t ← elaborate s
   let v ← eval (coerce t τ)
   pack τ v
+
+/-- `enum E x = e;` at file scope: `coerce(e, E)` is an `ImplicitCast` to the enum type, which `eval_cast`
+    leaves alone (`typ.is_integer` is false for an `EnumType`); `pack(E, cval)` converts -/
+def initializerEnum (s : Src) : Except Err (List Nat) := do
+  let t ← elaborate s
+  let v ← eval t
+  packAny .enum v
+
+/-- `T *p = (T *)e;` at file scope: the cast to a pointer type leaves the value alone; `pack` converts -/
+def initializerPtr (s : Src) : Except Err (List Nat) := do
+  let t ← elaborate s
+  let v ← eval t
+  packAny .ptr v
 
 /-- `case e:` under `switch (x)` with `x : ctl`: `coerce(e, promote(x).typ)`, `eval_expr` -/
 def caseLabel (ctl : Ty) (s : Src) : Except Err Int := do
